@@ -270,10 +270,12 @@ def heap_program_stream(histories, r, res):
                              "ownership_and_assigned_before_read_analyses_8_accepted_11_variants_rejected": bool(ok903),
                              "writes_that_emit_tokens": emitting,
                              "detail_mismatches_with_code": counts,
-                             "detail_examples": [{"what": d["what"], "model": d.get("model"), "impl": d.get("impl"),
-                                                  "op": {k: v for k, v in histories[hi][d["i"]].items()
-                                                         if k in ("kind", "wopts", "kw")}}
-                                                 for (hi, d) in details if d["detail"] != "model-tree-vs-dag"][:6]}
+                             "detail_examples": list({json.dumps([d["detail"], histories[hi][d["i"]].get("kind"),
+                                                                  sorted(histories[hi][d["i"]].get("wopts") or {}), d.get("model"), d.get("impl")]):
+                                                      {"what": d["what"], "model": d.get("model"), "impl": d.get("impl"),
+                                                       "op": {k: v for k, v in histories[hi][d["i"]].items()
+                                                              if k in ("kind", "wopts", "kw")}}
+                                                      for (hi, d) in details if d["detail"] != "model-tree-vs-dag"}.values())[:8]}
 
 
 def replay(ctx, rec):
